@@ -217,7 +217,7 @@ def bit_equal(xs, ys):
 _GL = np.polynomial.legendre.leggauss(20)
 
 
-def gl_integral(pdf, a, b, tol=1e-11, max_panels=600):
+def gl_integral(pdf, a, b, tol=1e-11, max_panels=4000):
     """Adaptive Gauss-Legendre quadrature of a vectorised density: a panel is accepted when the 20-point
     rule on it and on its two halves agree; kinks / cusps (log-Laplace mode, support end points) are
     isolated by bisection.  All panels of one refinement level are evaluated in ONE call of `pdf`.
@@ -240,11 +240,17 @@ def gl_integral(pdf, a, b, tol=1e-11, max_panels=600):
         g2 = 0.5 * (mid - lo) * (y[1] @ gw) + 0.5 * (hi - mid) * (y[2] @ gw)
         used += len(lo)
         d = np.abs(g1 - g2)
-        accept = (d <= tol * (hi - lo) / (b - a) + 1e-16) | ~(d == d)
+        conv = (d <= tol * (hi - lo) / (b - a) + 1e-16)
+        # a panel a few ulps wide cannot be refined (integrable singularity at a support end point with shape
+        # parameter < 1, or a jump): its whole mass counts as uncertainty
+        stuck = ~conv & ((hi - lo <= 64 * np.spacing(np.maximum(np.abs(lo), np.abs(hi)))) | ~(d == d))
         if depth == 49 or used >= max_panels:
-            accept[:] = True
-        total += float(np.sum(g2[accept]))
-        err += float(np.nansum(d[accept]))
+            stuck = ~conv
+        accept = conv | stuck
+        total += float(np.nansum(g2[accept]))
+        err += float(np.nansum(d[conv])) + float(np.nansum(np.abs(g1[stuck]) + np.abs(g2[stuck])))
+        if np.any(~np.isfinite(g2[stuck])):
+            err = float('inf')
         keep = ~accept
         lo, hi = np.concatenate([lo[keep], mid[keep]]), np.concatenate([mid[keep], hi[keep]])
     return total, err
@@ -258,6 +264,14 @@ class Fns:
         self.kde = kde
         self.ppf_bisect = ppf_bisect
         self.label = label
+        self.cond = 1.0          # conditioning of the family at the fitted parameters (see `param_cond`)
+
+    @property
+    def extra(self):
+        """additive tolerance for evaluation error at extreme fitted parameters: scipy evaluates e.g.
+        (b-1)*log1p(-t) - betaln(a,b) with b ~ 6e5, or ((x-loc)/scale)**c with c ~ 4e7, loc ~ -2.5e8; the
+        result carries a relative error ~ eps * (largest parameter).  Negligible (2e-13) for ordinary fits."""
+        return 1e3 * 2.3e-16 * self.cond
 
 
 def probes(rng, data, extra=()):
@@ -288,7 +302,7 @@ def laws(fns, data, rng, report, deep=False):
         report('cdf:nan', {'x': float(x[i])}, 'nan', 'cdf(x) is a number in [0,1]')
         return n
     d = np.diff(F)
-    if np.any(d < -1e-12):
+    if np.any(d < -1e-12 - fns.extra):
         i = int(np.argmin(d))
         report('cdf:not-monotone', {'x': [float(x[i]), float(x[i + 1])]}, [float(F[i]), float(F[i + 1])],
                'cdf non-decreasing (tolerance 1e-12)')
@@ -336,7 +350,7 @@ def laws(fns, data, rng, report, deep=False):
         n += 1
         # KDE: exact up to 1e-8.  scipy families: 1e-7 (the fitted parameters can be extreme, e.g. log-Laplace
         # c ~ 4e7 with loc ~ -2.5e8, where the CDF itself is only good to ~1e-9) + the quadrature's own estimate
-        tol = (1e-8 if fns.kde else 1e-7) + 4 * qerr
+        tol = (1e-8 if fns.kde else 1e-7) + 4 * qerr + fns.extra
         if not abs(integral - inc) <= tol:
             report('integral', {'a': a, 'b': b}, {'integral_pdf': integral, 'cdf_increment': inc, 'quadrature_error': qerr},
                    f'|int_a^b pdf - (cdf(b)-cdf(a))| <= {tol:.3g}')
@@ -346,7 +360,7 @@ def laws(fns, data, rng, report, deep=False):
     for name, ppf in (('ppf', fns.ppf), ('ppf[bisect]', fns.ppf_bisect)):
         if ppf is None:
             continue
-        n += ppf_laws(fns, name, ppf, qs, x, F, f, sd, report)
+        n += ppf_laws(fns, name, ppf, qs, x, F, f, sd, report, max(abs(lo), abs(hi), sd))
     # ---- log pdf
     r = call(fns.logpdf, x)
     n += len(x)
@@ -355,9 +369,9 @@ def laws(fns, data, rng, report, deep=False):
                'log_probability_density = log(probability_density)')
     else:
         lp = r[1]
-        okm = f > 1e-290
+        okm = (f > 1e-290) & np.isfinite(f)      # (an unbounded density, beta a<1 at the end point, is inf = inf)
         ref = np.log(f[okm])
-        bad = ~(np.abs(lp[okm] - ref) <= 1e-10 * np.maximum(1.0, np.abs(ref)))
+        bad = ~(np.abs(lp[okm] - ref) <= 1e-10 * np.maximum(1.0, np.abs(ref)) + fns.extra)
         if np.any(bad):
             i = int(np.argmax(bad))
             report('logpdf', {'x': float(x[okm][i])}, {'log_pdf': float(lp[okm][i]), 'log(pdf)': float(ref[i])},
@@ -365,7 +379,7 @@ def laws(fns, data, rng, report, deep=False):
     return n
 
 
-def ppf_laws(fns, name, ppf, qs, x, F, f, sd, report):
+def ppf_laws(fns, name, ppf, qs, x, F, f, sd, report, span):
     n = 0
     r = call(ppf, qs)
     lanes = None
@@ -402,7 +416,7 @@ def ppf_laws(fns, name, ppf, qs, x, F, f, sd, report):
     r = call(fns.cdf, X[okl])
     if r[0] == 'ok':
         back = r[1]
-        tol = 1e-7
+        tol = 1e-7 + fns.extra
         if name == 'ppf[bisect]':
             # bisect stops on an ABSOLUTE bracket width of 1e-8 in x (its documented contract, C18)
             tol = 1e-7 + float(np.max(f)) * 1e-8
@@ -411,10 +425,11 @@ def ppf_laws(fns, name, ppf, qs, x, F, f, sd, report):
             # "wherever the CDF is continuous at floating-point resolution": where the CDF moves by more than
             # the tolerance between neighbouring floats (steep end of a beta / log-Laplace / gamma support)
             # q only has to lie between the CDF values of the floats around the returned point
+            # ("neighbouring" in the standardised variable (x - loc)/scale that scipy forms first: a few ulps of
+            # the largest magnitude involved)
             xb_ = X[okl][bad]
-            lo_, hi_ = xb_.copy(), xb_.copy()
-            for _ in range(4):
-                lo_, hi_ = np.nextafter(lo_, -np.inf), np.nextafter(hi_, np.inf)
+            step = 16 * 2.3e-16 * np.maximum(np.abs(xb_), span)
+            lo_, hi_ = xb_ - step, xb_ + step
             r2 = call(fns.cdf, np.concatenate([lo_, hi_]))
             if r2[0] == 'ok':
                 k = len(xb_)
@@ -489,20 +504,36 @@ def const_laws(model, c, rng, report):
     return n
 
 
+def param_cond(params):
+    """largest |shape parameter| and |loc|/scale of a scipy parameter dict (1 for ordinary fits)"""
+    try:
+        p = {k: abs(float(v)) for k, v in params.items()}
+    except Exception:  # noqa  (the KDE's dataset)
+        return 1.0
+    sc = p.get('scale', 1.0) or 1.0
+    vals = [v for k, v in p.items() if k not in ('loc', 'scale')] + [p.get('loc', 0.0) / sc, 1.0]
+    vals = [v for v in vals if math.isfinite(v)]
+    return max(vals) if vals else 1.0
+
+
 def model_fns(m):
     kde = is_kde(m)
     inst = inst_of(m)
     fns = Fns(m.probability_density, m.cumulative_distribution, m.percent_point, m.log_probability_density,
               kde=kde, ppf_bisect=(lambda q: inst.percent_point(q, method='bisect')) if kde else None)
     fns.model = inst if kde else None
+    if not kde:
+        fns.cond = param_cond(inst._params)
     return fns
 
 
 def scipy_fns(m):
     """the scipy object at the fitted parameters, called directly (assumption validation)"""
     mc, p = type(m).MODEL_CLASS, dict(m._params)
-    return Fns(lambda x: mc.pdf(x, **p), lambda x: mc.cdf(x, **p), lambda q: mc.ppf(q, **p),
-               lambda x: mc.logpdf(x, **p))
+    fns = Fns(lambda x: mc.pdf(x, **p), lambda x: mc.cdf(x, **p), lambda q: mc.ppf(q, **p),
+              lambda x: mc.logpdf(x, **p))
+    fns.cond = param_cond(p)
+    return fns
 
 
 # ==================================================================================== tie (run)
@@ -645,6 +676,18 @@ def corr_constant_fit(ctx, lean):
                     if tables.get(f'repl.{q}') != real_t and bad is None:
                         bad = {'what': 'replace_constant_methods', 'cls': cls, 'query': q, 'real': real_t,
                                'model': tables.get(f'repl.{q}')}
+            else:
+                # non-constant data on an instance that WAS constant: are the overrides removed? (generated flag)
+                m2 = getattr(u, cls)()
+                m2._set_constant_value(c)
+                with np.errstate(all='ignore'):
+                    m2._check_constant_value(X)
+                left = sorted(k for k in PY_Q.values() if k in m2.__dict__)
+                real_reset = (not left) and m2._constant_value is None
+                ctx.count('checkconst.reset' if real_reset else 'checkconst.no-reset')
+                if tables.get('reset') != str(real_reset).lower() and bad is None:
+                    bad = {'what': 'reset on non-constant data', 'cls': cls, 'overrides left': left,
+                           '_constant_value': m2._constant_value, 'model': tables.get('reset')}
             # full fit on constant data: public queries answer like the generated point mass
             if len(set(data)) == 1:
                 spec = {'cls': cls, 'opts': {}}
@@ -701,7 +744,7 @@ def tv_kde(ctx, lean):
     rng = ctx.rng('kdecdf')
     bad_b = bad_c = None
     worst = 0.0
-    for spec, meta, data, m in kde_pool(ctx, 'kdepool', 10 * ctx.scale):
+    for spec, meta, data, m in kde_pool(ctx, 'kdepool', 30 * ctx.scale):
         xs, ws, cov = kde_parts(m)
         L, Up = m._get_bounds()
         sd = float(np.std(xs))
@@ -746,7 +789,7 @@ def tv_ppf_pre(ctx, lean):
     eps_model = lean_floats(lean, 'epsilon')
     if eps_model[0] != 'ok' or eps_model[1][0] != EPS:
         bad = {'what': 'EPSILON', 'real': EPS, 'model': eps_model}
-    for i in range(40 * ctx.scale):
+    for i in range(100 * ctx.scale):
         k = rng.choice([0, 1, 2, 5, 9])
         qs = [rng.choice(Q_SPECIAL) if rng.random() < 0.7 else rng.random() for _ in range(k)]
         if rng.random() < 0.25 and k:
@@ -776,7 +819,7 @@ def corr_kde_ppf(ctx, lean):
     above cdf(upper bound) must fail with the same error kind in both"""
     rng = ctx.rng('kdeppf')
     bad = None
-    for spec, meta, data, m in kde_pool(ctx, 'kdepool2', 5 * ctx.scale):
+    for spec, meta, data, m in kde_pool(ctx, 'kdepool2', 14 * ctx.scale):
         xs, ws, cov = kde_parts(m)
         if len(xs) > 120:
             continue
@@ -853,7 +896,7 @@ def corr_forwarding(ctx):
     rng = ctx.rng('fwd')
     bad = None
     abad = None
-    pool = fitted_pool(ctx, 'fwdpool', 2 * ctx.scale)
+    pool = fitted_pool(ctx, 'fwdpool', 4 * ctx.scale)
     for spec, meta, data, m in pool:
         cls = spec['cls']
         mc, p = type(m).MODEL_CLASS, m._params
@@ -917,7 +960,7 @@ def corr_wrapper(ctx):
         ctx.case(('wrapper-unfitted', q))
         if not (r[0] == 'err' and r[1].startswith('NotFittedError')) and bad is None:
             bad = {'what': 'unfitted', 'query': q, 'real': str(r)[:100]}
-    for _ in range(3 * ctx.scale):
+    for _ in range(8 * ctx.scale):
         meta, data = gen_data(rng, n=rng.choice([8, 30, 120]))
         if rng.random() < 0.15:
             data = np.full(7, float(data[0]))
@@ -974,8 +1017,11 @@ def class_key(spec, model, kind):
     if what == 'q-above-cdf-at-upper-bound':
         meth = ''                      # same cause for both solvers
     key = f'{cls}.{name}{meth}:{what}' if what else f'{cls}.{name}{meth}'
-    if spec['cls'] == 'GaussianKDE' and spec['opts'].get('weights') is not None and q == 'cdf':
-        key += ':weighted'
+    if spec['cls'] == 'GaussianKDE' and spec['opts'].get('weights') is not None and q == 'cdf' \
+            and what in ('range', 'limits'):
+        key = f'{cls}.{name}:range:weighted'
+    if spec.get('tag') == 'data-scale-below-1e-9' and q == 'ppf' and what in ('cdf-of-ppf', 'ppf-of-cdf', 'not-monotone'):
+        key = f'{cls}.{name}:root-finder-absolute-tolerance'
     return key
 
 
@@ -1024,6 +1070,25 @@ def search(ctx, deep):
         meta, data = gen_data(rng, kind=rng.choice(['normal', 'uniform', 'bimodal', 't']), n=n)
         spec = {'cls': 'GaussianKDE', 'opts': {'bw_method': rng.choice([1.0, 0.9, 1.0, 'silverman'])}}
         examine(ctx, spec, data, rng, deep, counts)
+    if deep:
+        # (a) weights that put the mass on the extremes: scipy's bandwidth follows the WEIGHTED covariance while
+        #     _get_bounds uses the unweighted np.std, so the truncated mass is no longer small
+        for rep in range(3):
+            k = rng.choice([20, 60, 200])
+            rs = np.random.RandomState(rng.randrange(2 ** 31))
+            sc = 10 ** rng.uniform(-1, 2)
+            data = np.concatenate([[-10 * sc, 10 * sc], rs.normal(0, 0.1 * sc, k)])
+            w = [100.0, 100.0] + [0.01] * k
+            spec = {'cls': 'GaussianKDE', 'opts': {'bw_method': rng.choice([None, 'silverman', 1.0]), 'weights': w}}
+            examine(ctx, spec, data, rng, deep, counts)
+        # (b) data of small magnitude: the root finders stop on ABSOLUTE tolerances (bisect tol=1e-8 on the bracket
+        #     width, chandrupatla eps_a = 2*eps on the step) that do not scale with the data
+        for rep in range(4):
+            meta, data = gen_data(rng, kind=rng.choice(['normal', 'uniform', 'bimodal']), n=rng.choice([8, 30, 100]))
+            data = (data - meta['loc']) / meta['scale'] * 10 ** rng.uniform(-13, -9)
+            spec = {'cls': 'GaussianKDE', 'opts': {'bw_method': rng.choice([None, 'silverman'])},
+                    'tag': 'data-scale-below-1e-9'}
+            examine(ctx, spec, data, rng, deep, counts)
     ctx.support = {'oracle_checks': counts['checks'], 'failures': counts['failures'], 'deep': deep}
 
 
